@@ -628,3 +628,26 @@ Proof.
     destruct (CHUNKn <=? bcap c - length (buf c)); inv H; cbn [tee_total plain_above_tee]; auto.
   - inv H. auto.
 Qed.
+
+(* ---------------------------------------------------------------- the reachable-state invariant *)
+(* offset <= len(buf) in every Connection of a stack ([wfr]) is preserved by everything the real
+   code does with a Connection: Read outside matching (read_stream), prefetch
+   (prefetch_preserves_stream), Wrap (wrap_inv) and MatcherSet.Match / MatcherSets.AnyMatch with
+   any nesting of `not` (below).  freeze/unfreeze are only ever called in those patterns, so a
+   state with offset > len(buf) -- in which a matching-mode Read would fall through to the
+   socket -- is unreachable; the lock-step generator stays inside these patterns. *)
+Lemma run_set_wf ms c i orc seen r' o' :
+  offset c <= length (buf c) -> wfr i ->
+  run_set ms (L4 c i) orc = (seen, r', o') -> wfr r'.
+Proof.
+  intros Hw Hwi H. destruct (run_set_view ms c i orc Hw) as (c' & E & Hc).
+  rewrite E in H. inv H. destruct Hc; subst c'; cbn; auto.
+Qed.
+
+Lemma run_sets_wf ss c i orc seen r' o' :
+  offset c <= length (buf c) -> wfr i ->
+  run_sets ss (L4 c i) orc = (seen, r', o') -> wfr r'.
+Proof.
+  intros Hw Hwi H. destruct (run_sets_view ss c i orc Hw) as (c' & E & Hc).
+  rewrite E in H. inv H. destruct Hc; subst c'; cbn; auto.
+Qed.
